@@ -68,8 +68,10 @@ func openGuard(fn func() (*txfile.File, error)) (f *txfile.File, res string) {
 func (p *pathReplayer) step(act, h, want string) core.Event {
 	ev := core.Event{"ev": "Path", "h": h, "a": act, "cause": ""}
 	switch {
-	case act == "Open":
-		f, res := openGuard(func() (*txfile.File, error) { return txfile.Open(p.path, 0600, p.opts) })
+	case act == "Open" || act == "OpenRO":
+		o := p.opts
+		o.Readonly = act == "OpenRO"
+		f, res := openGuard(func() (*txfile.File, error) { return txfile.Open(p.path, 0600, o) })
 		if f != nil {
 			p.files[h] = f
 		}
@@ -207,7 +209,7 @@ func CheckC18(r *core.Run) {
 	r.Rule = "explorer: PathLock.tla (3 handles: plain open, waiting open, failing opens, close); conformance: PathLockReplay prints one path per transition (incl. open after a failed open for each cause, open after close, acquire after wait), every path is executed with the real Open/Close on a real file in a temporary directory (failing opens: invalid options, both headers damaged / garbage file, injected write+sync failure during initialisation or the max-size update), and PathLockTrace.tla judges every result; distinct = transitions"
 	r.Assume("the real OS file system and flock of this sandbox; a waiting open that the model says is blocked is given 40 ms to (wrongly) return")
 	r.Explore(core.TLCOpts{Module: "MC_PathLock", Config: "MC_PathLock.cfg", Timeout: 5 * time.Minute, HeapMB: 2048, Workers: 4})
-	gen, err := core.RunTLC(r.Scratch, core.TLCOpts{Module: "PathLockReplay", Config: "PathLockReplay.cfg", Workers: 1, Timeout: 10 * time.Minute, HeapMB: 2048})
+	gen, err := core.RunTLC(r.Scratch, core.TLCOpts{Module: "PathLockReplay", Config: map[bool]string{false: "PathLockReplay_q.cfg", true: "PathLockReplay_t.cfg"}[r.Thorough()], Workers: 1, Timeout: 10 * time.Minute, HeapMB: 2048})
 	if err != nil || !gen.OK {
 		r.Break("PathLockReplay generator failed: %v %s", err, tail(gen))
 		return
